@@ -420,7 +420,7 @@ pub fn run(ctx: &mut Ctx) -> Result<(), Violation> {
         ctx.stage("all-directed-graphs-on-3-vertices-x-flags", true, r)?;
     }
 
-    let cases = ctx.tier.pick(900, 40_000);
+    let cases = ctx.tier.cases(900, 40_000);
     let maxv = ctx.tier.pick(5, 6);
     let r = par_random(ctx, "random-graphs", cases, 120, |tape, st| {
         let mut t = Tape::new(tape);
@@ -435,7 +435,7 @@ pub fn run(ctx: &mut Ctx) -> Result<(), Violation> {
     ctx.stage("random-graphs", false, r)?;
 
     // feedback: the generator's own copy names become vertices, up to three rounds
-    let cases = ctx.tier.pick(150, 10_000);
+    let cases = ctx.tier.cases(150, 10_000);
     let r = par_random(ctx, "feedback-names", cases, 160, |tape, st| {
         let mut t = Tape::new(tape);
         let mut c = gen_case(&mut t, 3);
